@@ -544,7 +544,23 @@ impl DocGen {
     /// one top-level markup item (no trailing newline)
     pub fn item(&mut self) -> String {
         let depth = self.shape.range(1, 3);
-        match self.shape.weighted(&[8, 5, 6, 5, 3, 3, 4, 3, 3, 2, 2, 2, 4, 2, 2, 2, 1, 3, 2, 1]) {
+        match self.shape.weighted(&[8, 5, 6, 5, 3, 3, 4, 3, 3, 2, 2, 2, 4, 2, 2, 2, 1, 3, 2, 1, 2]) {
+            20 => {
+                // a row of short strings made of characters whose width is a matter of opinion
+                // (East Asian ambiguous: one column here, two in a CJK terminal; wide; combining;
+                // zero width), sized so that it fits the common page widths under one way of
+                // measuring and not under another
+                const CHARS: &[&str] = &["\u{2460}", "\u{2461}", "\u{2026}", "\u{2014}", "\u{b7}", "\u{d7}", "\u{b0}", "\u{b1}", "\u{a7}", "\u{2192}", "\u{203b}", "\u{3b1}", "\u{44f}", "\u{e9}", "\u{4e2d}", "e\u{301}", "\u{200b}", "\u{ff21}"];
+                let id = self.ident();
+                let n = *self.shape.pick(&[4usize, 5, 6, 8, 10, 11, 12, 13, 14, 18, 19, 20, 21, 22]);
+                let narrow_only = self.shape.chance(0.5);
+                let mut items = Vec::new();
+                for _ in 0..n {
+                    let c = if narrow_only { *self.deco.pick(&CHARS[..14]) } else { *self.deco.pick(CHARS) };
+                    items.push(format!("\"{}\"", c));
+                }
+                format!("#let {} = ({})", id, items.join(", "))
+            }
             18 => {
                 // a partially applied function bound to a short name from a small pool, and a call
                 // of it: documents (and twins) share the names, the bound arguments are values
